@@ -381,8 +381,13 @@ def run(res, tier):
                                                  "the hooks call, not a stage hook" for p in prims}
     g = callgraph.build()
     res.rule("R-MUSTCALL", "every wake hook of engine_sleep.c is called unconditionally in the position stage", floor=4)
-    res.rule("R-RESULT-USED", "the result of each wake hook guards an immediate mj_updateSleep", floor=4)
+    # no floor of its own: a hook that is not (unconditionally) called is an R-MUSTCALL report and has no result to use;
+    # coverage is checked on the sum instead
+    res.rule("R-RESULT-USED", "the result of each wake hook guards an immediate mj_updateSleep", floor=0)
     position_stage(res, g, uf, hooks)
+    failed = sum(1 for v in res.violations if v["rule"] == "R-MUSTCALL")
+    if res.rules["R-RESULT-USED"]["instances"] + failed < len(hooks):
+        raise AnalysisError("R-RESULT-USED lost instances: fewer result obligations than wake hooks")
     res.rule("R-WHO-WRITES", "d->tree_asleep written only by engine_sleep.c and the reset path", floor=7)
     who_writes(res, g)
     res.rule("R-FILTER", "qvel/qpos writes of mj_advance go through the awake index lists under the sleep filter", floor=5)
